@@ -1,5 +1,5 @@
-import ZvbiModel.Idl.Lemmas
-import ZvbiModel.Pfc.Lemmas6
+import ZvbiModel.Idl.LemmasRepeat
+import ZvbiModel.Pfc.Lemmas9
 import ZvbiModel.Pfc.Witness
 /-!
 # C15 - IDL and PFC demultiplexers deliver the sent data in order and flag loss
@@ -33,23 +33,48 @@ example : crcTab 1 = 0x1081 ∨ crcTab 1 ≠ 0 := by decide
     DATA_LOST exactly when a packet was damaged or the continuity index jumped since the last
     delivery; DEPENDENT = IAL bit 3.  (`s.flags` is whatever the flag word holds at the start.) -/
 theorem idl_delivers_sent (s : St) (hri : s.ri = none) (txs : List Spec.Tx)
+    (hnr : ∀ t ∈ txs, ∀ p, t ≠ Spec.Tx.damagedRep p)
     (hsent : ∀ t ∈ txs, Spec.Tx.Sent s.channel s.address t) :
     (run s (txs.map Spec.Tx.bytes)).map (fun cb => (cb.flags, cb.bytes)) =
-      Spec.expected s.flags s.ci txs := run_refines txs s hri hsent
+      Spec.expected s.flags s.ci txs := run_refines txs hnr s hri hsent
+
+/-- **Refinement including the repeat mechanism, from any state.**  The transmission may also
+    contain damaged packets that announce a repeat (RI bit 7), and the demultiplexer may already
+    await a repeat (`dx->ri >= 0`).  The callbacks are exactly `Spec.expectedR`: the awaited repeat,
+    arriving intact, is delivered in place of the damaged packet; any other intact packet of ours
+    while a repeat is awaited reports DATA_LOST (a first transmission is delivered, a repeat
+    discarded); without an awaited repeat, repeats are discarded.  The `sticky` argument says whether
+    the receiver keeps awaiting the repeat after it arrived: `false` is the intended receiver, and the
+    current source is `sticky = !Gen.idlRiClearedOnRecovery` (see the next two theorems). -/
+theorem idl_delivers_sent_repeats (s : St) (txs : List Spec.Tx)
+    (hsent : ∀ t ∈ txs, Spec.Tx.Sent s.channel s.address t) :
+    (run s (txs.map Spec.Tx.bytes)).map (fun cb => (cb.flags, cb.bytes)) =
+      Spec.expectedR (!idlRiClearedOnRecovery) s.flags s.ci s.ri txs := run_refines_R txs s hsent
+
+/-- On a source that forgets the awaited repeat once it arrived (`fixes/idl-repeat-recovered.diff`),
+    the demultiplexer is the intended receiver: DATA_LOST exactly when something was lost. -/
+theorem idl_delivers_sent_repeats_intended (hfix : idlRiClearedOnRecovery = true) (s : St) (txs : List Spec.Tx)
+    (hsent : ∀ t ∈ txs, Spec.Tx.Sent s.channel s.address t) :
+    (run s (txs.map Spec.Tx.bytes)).map (fun cb => (cb.flags, cb.bytes)) =
+      Spec.expectedR false s.flags s.ci s.ri txs := by
+  have := run_refines_R txs s hsent
+  rw [hfix] at this
+  exact this
 
 /-- In particular the delivered byte strings are exactly the user data of the intact first
     transmissions, block by block, in order - nothing else, nothing missing. -/
 theorem idl_delivers_sent_bytes (s : St) (hri : s.ri = none) (txs : List Spec.Tx)
+    (hnr : ∀ t ∈ txs, ∀ p, t ≠ Spec.Tx.damagedRep p)
     (hsent : ∀ t ∈ txs, Spec.Tx.Sent s.channel s.address t) :
     (run s (txs.map Spec.Tx.bytes)).map (·.bytes) =
       txs.filterMap (fun t => match t with | .data p => some p.data | _ => none) := by
-  have h := congrArg (List.map (·.2)) (run_refines txs s hri hsent)
+  have h := congrArg (List.map (·.2)) (run_refines txs hnr s hri hsent)
   rw [List.map_map] at h
   have hl : (List.map ((fun x => x.2) ∘ fun cb : Cb => (cb.flags, cb.bytes)) (run s (txs.map Spec.Tx.bytes)))
       = (run s (txs.map Spec.Tx.bytes)).map (·.bytes) := rfl
   rw [hl] at h
   rw [h]
-  clear h hl hsent
+  clear h hl hsent hnr
   generalize s.flags = fl
   generalize s.ci = eci
   induction txs generalizing fl eci with
@@ -145,6 +170,27 @@ example : Spec.NotForUs 3 0x21 (List.replicate 42 0) := by
     the translator then sets `Gen.idlFlagsInitialised`.)  Replay: corpus/C15/f17-idl-flags-uninit.ops -/
 theorem idl_flags_uninitialised_counterexample : idlFlagsInitialised = false →
     ((new 1 0 190).bind (fun s => (feed s Zvbi.C15Witness.f17Packet).2.2)).map (·.flags) = some 0xBEBEBEBE := by
+  decide +kernel
+
+/-- packets with an RI byte: channel 3, address 0x21, RI, CI and DL present -/
+def exRep (ci ri : Nat) : Spec.Pkt :=
+  Spec.mkPacket 3 14 2 [1, 2] ri ci [0, 0, 0, 0, 0, 0, 0, 0, 0, 7] 0xAA (List.replicate 20 0x55)
+/-- the first transmission of packet 5, damaged in its last byte, announcing a repeat -/
+def exRepDamaged : Spec.Pkt := { exRep 5 0x80 with crcHi := (exRep 5 0x80).crcHi ^^^ 1 }
+
+example : (exRep 5 0x81).Valid := valid_of_validB _ (by decide +kernel)
+
+/-- **Finding C15-R1 (witness): DATA_LOST without a loss.**  Packet 5 arrives damaged and announces a
+    repeat, its repeat arrives intact and is delivered (nothing is lost), then packet 6 arrives:
+    libzvbi still awaits the repeat (`dx->ri` is never reset after a successful recovery), takes
+    packet 6 for "repeat packets lost" and delivers it with DATA_LOST - the intended receiver
+    (`expectedR false`) reports no loss.  Vacuous once the source resets `dx->ri`
+    (`Gen.idlRiClearedOnRecovery`).  Replay: corpus/C15/r1-idl-spurious-data-lost.ops -/
+theorem idl_spurious_data_lost_counterexample : idlRiClearedOnRecovery = false →
+    (run { channel := 3, address := 0x21, ci := none, ri := none, flags := 0 }
+      [exRepDamaged.bytes, (exRep 5 0x81).bytes, (exRep 6 0x80).bytes]).map (·.flags) = [0, 1] ∧
+    (Spec.expectedR false 0 none none
+      [.damagedRep exRepDamaged, .rep (exRep 5 0x81), .data (exRep 6 0x80)]).map (·.1) = [0, 0] := by
   decide +kernel
 
 /-- With an initialised flag word (`fill = 0`, or a repaired source) a new demultiplexer starts
@@ -295,6 +341,26 @@ theorem pfc_foreign_header_delivers_nothing (s : St) (buf : List Nat) (hlen : bu
     ∃ o, feed s buf = .ok o ∧ o.blocks = [] ∧ o.ret = true ∧ (o.st = s ∨ o.st.nPackets = 0) :=
   feed_foreign_header s buf hlen m pp haddr hpage hne
 
+/-- **A page header of another magazine is harmless** (current tree, after fix e5a7d5f; the proof
+    needs `Gen.pfcForeignMagHeaderIgnored = true` and stops building if the source loses that test).
+    With parallel magazine transmission such a header can arrive in the middle of our page: it
+    leaves the state unchanged, and inserting it anywhere into any packet sequence changes neither
+    the callbacks nor the final state - so the block in progress is delivered intact. -/
+theorem pfc_foreign_magazine_header_harmless (s : St) (hdr : List Nat) (hlen : hdr.length = 42) (m pp : Nat)
+    (haddr : Spec.addrOf hdr = some (m, 0)) (hpage : Spec.pageByteOf hdr = some pp)
+    (hmag : ((m ||| pp) ^^^ s.pgno) &&& 0xF00 ≠ 0) :
+    feed s hdr = .ok ⟨s, true, []⟩ ∧
+    ∀ a b : List (List Nat), feedAll s (a ++ hdr :: b) = feedAll s (a ++ b) :=
+  ⟨feed_foreign_mag_header (by decide) s hdr hlen m pp haddr hpage hmag,
+   fun a b => feedAll_insert hdr s.pgno
+     (fun s' hs' => feed_foreign_mag_header (by decide) s' hdr hlen m pp haddr hpage (by rw [hs']; exact hmag))
+     b a s rfl⟩
+
+/-- the transmission of finding F41 (a header of magazine 2 between rows 1 and 2 of page 1DF) now
+    delivers both blocks intact -/
+example : blocksOf (feedAll (new 0x1df 1) Zvbi.C15Witness.f20Packets) =
+    [(5, 60, List.range 60), (6, 40, (List.range 40).map (· + 100))] := by decide +kernel
+
 /-- **Loss discards the block in progress, nothing else.**  (a) A row of our open page that is
     not the expected one (a row was lost), and (b) a page header of ours whose continuity index is
     not the expected one (a page was lost), deliver nothing and put the demultiplexer into the
@@ -357,17 +423,35 @@ example : (Spec.run .idle [] ((Spec.allRows exPages).map (·.2)).flatten).out = 
 example : Spec.run .idle [] (Spec.flat 2 [(⟨5, [1, 2, 3]⟩, 4), (⟨6, []⟩, 0)]) = ⟨.idle, [(5, [1, 2, 3])], true⟩ := by
   decide +kernel
 
-/-- **Open (not proved): the executable sender always meets the hypotheses of
-    `pfc_delivers_blocks`.**  For every sendable item list, the packets of `Spec.encode` carry the
-    flat stream of the same blocks (with the gaps enlarged by the alignment fillers) and all their
-    block pointers are usable.  Checked on instances above, and on every run by the check script
-    (Lean sender = Python sender; the real code fed with its output delivers the blocks). -/
-def pfc_sender_admissible_full : Prop :=
-  ∀ (lead : Nat) (items : List Spec.Item), (∀ it ∈ items, it.app < 32 ∧ it.data.length ≤ 2047) →
+/-- **The executable sender always meets the hypotheses of `pfc_delivers_blocks`** (formerly the
+    open statement `pfc_sender_admissible_full`).  For every list of sendable items and every
+    number of leading fillers: all block pointers of the packets of `Spec.encode` are usable, and
+    their payloads, concatenated, are the flat stream of exactly the items' blocks (the gaps
+    enlarged by the alignment fillers).  Proof: an invariant of the layout fold derived from the
+    definition of `alignPad` (every first separator of a packet that starts between blocks sits
+    at a multiple of 3, <= 36), plus the grammar's phase at every cut of a well-tagged token stream. -/
+theorem pfc_sender_admissible (lead : Nat) (items : List Spec.Item)
+    (hok : ∀ it ∈ items, it.app < 32 ∧ it.data.length ≤ 2047) :
     Spec.AdmissibleAll .idle (Spec.encode lead items) ∧
     ∃ lead' gaps, gaps.length = items.length ∧
       ((Spec.encode lead items).map (·.2)).flatten =
-        Spec.flat lead' ((items.map (fun it => (⟨it.app, it.data⟩ : Spec.Blk))).zip gaps)
+        Spec.flat lead' ((items.map (fun it => (⟨it.app, it.data⟩ : Spec.Blk))).zip gaps) :=
+  ⟨encode_admissible lead items hok, encode_stream_flat lead items⟩
+
+/-- **End to end for the executable sender.**  Whatever sendable items, leading fillers and
+    gaps: the rows produced by `Spec.encode`, distributed over pages in any way (<= 25 rows per
+    page, continuity index counting from any value), fed to a new demultiplexer, are delivered as
+    exactly the non-empty blocks of the items, in order.  No hypothesis about block pointers or
+    alignment is left. -/
+theorem pfc_sender_delivers (pgno stream : Nat) (hpg1 : 0x100 ≤ pgno) (hpg2 : pgno < 0x900) (hst : stream < 16)
+    (lead : Nat) (items : List Spec.Item) (hok : ∀ it ∈ items, it.app < 32 ∧ it.data.length ≤ 2047)
+    (ci : Nat) (hci : ci < 16) (pages : List Spec.Page) (hn : ∀ pg ∈ pages, pg.rows.length ≤ 25)
+    (hrows : Spec.allRows pages = Spec.encode lead items) :
+    ∃ s' bl, feedAll (new pgno stream) (Spec.pagesPkts pgno stream ci pages) = .ok (s', bl) ∧
+      bl.map toSpec = Spec.delivered (Spec.itemBlocks items) :=
+  encode_delivers pgno stream hpg1 hpg2 hst lead items hok ci hci pages hn hrows
+
+example : Spec.encodeChecked 0 exItems = some (Spec.encode 0 exItems) := by decide +kernel
 
 end Pfc
 
